@@ -78,6 +78,8 @@ def dec_events(rows):
             out.append("eof")
         elif t == 7:
             out.append("err")
+        elif t == 8:
+            out.append("comment")
         else:
             out.append("bad")
     return out
@@ -90,6 +92,8 @@ def coq_event(e):
         return "EvEof"
     if e == "err":
         return "EvErr"
+    if e == "comment":
+        return "EvComment"
     if e == "bad":
         return "EvOther"
     if e[0] in ("S", "E"):
@@ -321,7 +325,8 @@ def gen_wellformed(r, i, specs):
             else:
                 wt = r.pick(WTEXT)
                 extra = '<data key="zz">5</data>' if r.chance(1, 5) else ""
-                parts.append("<edge %s>%s<data %s>%s</data>%s%s</edge>" % (" ".join(ats), nl, at("key", wkey), wt, extra, nl) + nl)
+                cm = "<!-- w -->" if r.chance(1, 8) else ""
+                parts.append("<edge %s>%s<data %s>%s%s</data>%s%s</edge>" % (" ".join(ats), nl, at("key", wkey), cm, wt, extra, nl) + nl)
                 # a weight <data> directly after the start tag only when no whitespace text precedes it
                 exp_edges.append((u, v, wt))
         if r.chance(1, 10):
@@ -571,6 +576,8 @@ class GraphMLProp(props.BaseProp):
                 msgs.append("read_graphml_string did not terminate")
             elif code not in ALLOWED_READ_CODES:
                 msgs.append("read_graphml_string returned unexpected code %s" % code)
+            if c.get("expect_code") is not None and code != c["expect_code"]:
+                msgs.append("expected outcome code %s, got %s" % (c["expect_code"], code))
             if code == 0:
                 msgs += self._valid_graph(c, o)
                 msgs += self._expected(c, o)
@@ -684,6 +691,8 @@ class GraphMLProp(props.BaseProp):
                     e = dict(c)
                     e["doc"] = nd
                     e.pop("expect", None)
+                    e.pop("expect_code", None)
+                    e.pop("doc_text", None)
                     e.pop("_obs", None)
                     out.append(e)
                 if len(out) > 60:
@@ -770,7 +779,8 @@ C19.manifest = {
             "C19_ok_directed). Validated per document: outcome kind and graph equal the model run on quick-xml's events of the same "
             "document; never panic / hang (10 s watchdog); Ok graphs are valid for the specs; generated well-formed GraphML yields exactly "
             "its elements; constructor result agrees with the spec layer (Spec/AGraph.v spec_new_from) on every case.",
-    "note": "Model of the code AFTER the F12 fix commit b5a873a (the pinned tree panicked on 4 input classes; confirmed, repaired). "
+    "note": "Model of the code AFTER the fix commits b5a873a (F12: the pinned tree panicked on 4 input classes) and 811b5e5 (F20: the "
+            "event after a weight <data> start tag was skipped, losing elements and swallowing parser errors); both confirmed, repaired. "
             "Modelled, not verified: quick-xml's tokenizer (a panic or hang inside it is covered only by the document stream: every "
             "single-byte truncation/deletion/duplication/replacement of the seeds, grammar documents). The refinement constructor-model -> "
             "spec_new_from is validated per case (observation 8), not proved here. Axioms: none.",
